@@ -152,6 +152,9 @@ pub fn storage_objects(seed: u64, n: u64) -> Vec<(&'static str, String)> {
             }
         }
     }
+    out.push(("walletpolicy-with-keys", "wpkh(@0/**)".to_string()));
+    out.push(("walletpolicy-with-keys", format!("wsh(sortedmulti(2,@0/**,@1/<{};{}>/*))", 2 + rng.below(3), 5 + rng.below(5))));
+    out.push(("walletpolicy-with-keys", "tr(@0/**,{pk(@1/**),pk(@2/<2;3>/*)})".to_string()));
     out.push(("walletpolicy", "wsh(multi(2,@0/**,@1/**))".to_string()));
     out.push(("walletpolicy", "tr(@0/**,{pk(@1/**),and_v(v:pk(@2/<2;3>/*),older(12))})".to_string()));
     out.push(("walletpolicy", "sh(wsh(or_d(pk(@0/**),and_v(v:pkh(@1/**),after(1000)))))".to_string()));
@@ -259,6 +262,28 @@ pub fn roundtrip(kind: &str, s: &str) -> Result<(String, String), String> {
                 return Err(format!("parse(print(x)) != x [{} vs {}]", d2, d));
             }
             Ok((text.clone(), text))
+        }
+        "walletpolicy-with-keys" => {
+            // BIP388 flow: template + key information (origin and xpub, no derivation) -> descriptor ->
+            // template again; the derivation written in the template must arrive in the descriptor
+            let mut wp = WalletPolicy::from_str(s).map_err(|e| format!("parse: {:?}", e))?;
+            const KEYS: [&str; 3] = [
+                "[6738736c/48'/0'/0']tpubD6NzVbkrYhZ4WaWSyoBvQwbpLkojyoTZPRsgXELWz3Popb3qkjcJyJUGLnL4qHHoQvao8ESaAstxYSnhyswJ76uZPStJRJCTKvosUCJZL5B",
+                "[b2b1f0cf/48'/0'/1']tpubDBrgjcxBxnXyL575sHdkpKohWu5qHKoQ7TJXKNrYznh5fVEGBv89hA8ENW7A8MFVpFUSvgLqc4Nj1WZcpePX6rrxviVtPowvMuGF5rdT2Vi",
+                "[a666a867/48'/0'/2']tpubD6NzVbkrYhZ4XgiXtGrdW5XDAPFCL9h7we1vwNCpn8tGbBcgfVYjXyhWo4E1xkh56hjod1RhGjxbaTLV3X4FyWuejifB9jusQ46QzG87VKp",
+            ];
+            let n = (0..8).filter(|i| s.contains(&format!("@{}", i))).count();
+            let keys: Vec<DescriptorPublicKey> = KEYS.iter().take(n).filter_map(|k| DescriptorPublicKey::from_str(k).ok()).collect();
+            if keys.len() != n || n == 0 || n > 3 {
+                return Err("parse: not enough host keys".into());
+            }
+            wp.set_key_info(&keys).map_err(|e| format!("parse: set_key_info {:?}", e))?;
+            let d = wp.into_descriptor().map_err(|e| format!("re-parse of own output failed: into_descriptor {:?}", e))?;
+            let back = WalletPolicy::from_descriptor(&d).map_err(|e| format!("re-parse of own output failed: from_descriptor {:?} [{}]", e, d))?;
+            if back.to_string() != s {
+                return Err(format!("parse(print(x)) != x [template {} became {} via {}]", s, back, d));
+            }
+            Ok((s.to_string(), back.to_string()))
         }
         "walletpolicy" => {
             let a = WalletPolicy::from_str(s).map_err(|e| format!("parse: {:?}", e))?;
